@@ -115,7 +115,9 @@ def gen_cluster(rng, idx):
             for v in virt:
                 if v["name"] in chans and rng.random() < 0.5:
                     cols.append({"name": v["name"], "vals": [rng.randrange(0, 9)]})
-            if rng.random() < 0.03:
+            fresh = not script or script[-1]["op"] in ("open", "commit")
+            if rng.random() < 0.04 and not auto and fresh:
+                # a key outside the writer (only when nothing of this writer is in flight uncommitted)
                 other = [g for g in groups if g not in use]
                 if other:
                     cols.append({"name": other[0]["idx"], "vals": [now]})
